@@ -30,6 +30,10 @@ manual = {
     "C15-m5": ["C15 (after the write_utf8_chunk histories were added)"],
     "C17-m5": ["C17 (dbg flavour; after both drivers stream byte pieces through write_utf8_chunk)"],
     "C18-m5": ["C04", "C18 (dbg flavour; after the many-distinct-names documents were added)"],
+    "C01-m6": ["C01"], "C03-m6": ["C03"], "C06-m6": ["C06"], "C08-m6": ["C08"], "C09-m6": ["C09"], "C11-m6": ["C11"], "C13-m6": ["C13"],
+    "C17-m6": ["C17 (dbg flavour)"],
+    "C15-m6": ["C15"],
+    "C18-m6": ["C18 (dbg flavour; after the long legacy-encoded text runs were added)"],
 }
 if os.path.exists(os.path.join(V, "seeded", "manual.json")):
     manual.update(json.load(open(os.path.join(V, "seeded", "manual.json"))))
